@@ -45,7 +45,7 @@ def Rule.asCoded : Rule := ⟨false⟩
 def Rule.repaired : Rule := ⟨true⟩
 
 /-- the rule the model driver runs = /repo today; flip when the patch is applied -/
-def currentRule : Rule := Rule.asCoded
+def currentRule : Rule := Rule.repaired   -- F-C20b repaired in /repo (91b82e4)
 
 /-- `bool(interval)`: the classes define `__len__` and no `__bool__` -/
 def truthyChild (c : Child) : Bool := c.len != 0
@@ -125,7 +125,7 @@ def plusFeatureBlocks (blocks : List Blk) : R (List Blk) :=
 def produceMerged (hasType : Bool) (intervals : List (Blk × Strand)) : RA (Strand × List Blk) := do
   let merged ← liftR (mergeFold intervals)
   let blocks := locBlocks merged.1
-  if !hasType then throw .attributeError        -- `self.gene_type.name`
+  -- `[self.gene_type.name] if self.gene_type else None` (repaired in /repo e559054): no AttributeError
   let out ← liftR (plusFeatureBlocks blocks)
   pure (.plus, out)
 
